@@ -1123,8 +1123,131 @@ def fpswitch_task(task, tr):
                'obligations': 'scalers and log arguments >= 2^-969; every node again has an entry >= threshold per site'})
 
 
+
+# ------------------------------------------------------------------ (e) per-sample normalisation of the rescaled kernels
+def normalised_replay(kernel, S, K, N):
+    """Real kernel on plain tensors, batch of two samples whose site likelihoods differ by 600 orders of magnitude (the
+    matrices of sample 1 are those of sample 0 times c = 1e-150: the site likelihood is homogeneous of degree 4 in them,
+    so the exact log-likelihood of sample 1 is that of sample 0 plus 4*N*log c): with one scaler per SAMPLE and pattern
+    every intermediate stays representable; a scaler shared between the samples lets sample 1 underflow."""
+    from torchtree.evolution import tree_likelihood as tl
+
+    g = torch.Generator().manual_seed(3)
+    base = 0.2 + 0.6 * torch.rand((4, K, S, S), dtype=torch.float64, generator=g)
+    tip_states = 'tip_states' in kernel
+    if tip_states:
+        base[:3] = base[:3] / base[:3].sum(-1, keepdim=True)
+    c = 1e-150
+    mats = torch.stack([base, base * c])
+    freqs = torch.full((1, S), 1.0 / S, dtype=torch.float64)
+    props = torch.full((K, 1, 1), 1.0 / K, dtype=torch.float64)
+    w = torch.ones(N, dtype=torch.float64)
+
+    def tips():
+        if tip_states:
+            return [torch.tensor([(i + 2 * s_) % S for s_ in range(N)]) for i in range(3)] + [None, None]
+        return [0.2 + 0.6 * torch.rand((S, N), dtype=torch.float64, generator=torch.Generator().manual_seed(10 + i)) for i in range(3)] + [None, None]
+
+    plain = tl.calculate_treelikelihood_tip_states_discrete if tip_states else tl.calculate_treelikelihood_discrete
+    ref0 = float(plain(tips(), w, POST, base, freqs, props))
+    want = [ref0, ref0 + 4 * N * math.log(c)]
+    try:
+        got = getattr(tl, kernel)(tips(), w, POST, mats, freqs, props).reshape(-1).tolist()
+    except Exception as e:
+        return True, f'{kernel} raised {type(e).__name__}: {e}'
+    for b in range(2):
+        if not math.isfinite(got[b]) or abs(got[b] - want[b]) > 1e-8 * abs(want[b]):
+            return True, (f'{kernel} on a batch of two samples (matrices of sample 1 = matrices of sample 0 x 1e-150): sample {b} '
+                          f'returns {got[b]} but the extended-range reference is {want[b]}')
+    return False, 'both samples finite and within 1e-8 of the reference'
+
+
+def normalised_task(task, tr):
+    """Over the reals ANY positive scaler gives the right value, so parts (a), (b) cannot see which maximum a kernel divides
+    by; the floating-point clause needs the structural fact that makes rescaling work: after the division the largest entry
+    of every (sample, site pattern) block of every internal partial is exactly 1 - one scaler per sample and pattern."""
+    from torchtree.evolution import tree_likelihood as tl
+
+    _, kernel, S, K, N = task
+    label = f'per-sample normalisation {kernel} S={S} K={K} N={N} batch=[2]'
+    tr.fn(getattr(tl, kernel))
+    tip_states = 'tip_states' in kernel
+    tr.bounds['normalisation'] = '3 taxa, S=2, K<=2, N<=2, batch of 2 samples; path region of each witness (which entry is the maximum); two witnesses (either sample the larger one)'
+    for flip in (False, True):
+        with tracing() as t:
+            d = t.dag
+            V = {}
+            W = {}
+            for k, name in enumerate(cm.names_shaped('P', (2, 4, K, S, S))):
+                big = (name.startswith('P[0') != flip)
+                W[name] = (0.3 + 0.6 * ((0.37 + 0.618 * k) % 1.0)) * (1.0 if big else 0.125)
+            if tip_states:
+                for b in range(2):
+                    for c_ in range(3):
+                        for k in range(K):
+                            for i in range(S):
+                                names = [f'P[{b},{c_},{k},{i},{j}]' for j in range(S)]
+                                acc = 0.0
+                                tot = sum(W[n_] for n_ in names)
+                                for n_ in names[:-1]:
+                                    W[n_] = round(W[n_] / tot * 2 ** 20) / 2 ** 20
+                                    acc += W[n_]
+                                W[names[-1]] = 1.0 - acc
+            for nm, shape in (('pi', (1, S)), ('prop', (K, 1, 1))):
+                for k, name in enumerate(cm.names_shaped(nm, shape)):
+                    W[name] = 0.2 + 0.6 * ((0.11 + 0.618 * k) % 1.0)
+            if not tip_states:
+                for i in range(3):
+                    for k, name in enumerate(cm.names_shaped(f'tip{i}', (S, N))):
+                        W[name] = 0.2 + 0.6 * ((0.23 + 0.618 * (k + 3 * i)) % 1.0)
+            for name, val in W.items():
+                V[name] = d.var(name, val)
+            mats = cm.var_tensor_shaped(V, 'P', (2, 4, K, S, S))
+            freqs = cm.var_tensor_shaped(V, 'pi', (1, S))
+            props = cm.var_tensor_shaped(V, 'prop', (K, 1, 1))
+            weights = torch.ones(N, dtype=torch.float64)
+            if tip_states:
+                partials = [torch.tensor([(i + 2 * s_) % S for s_ in range(N)]) for i in range(3)] + [None, None]
+            else:
+                partials = [cm.var_tensor_shaped(V, f'tip{i}', (S, N)) for i in range(3)] + [None, None]
+            getattr(tl, kernel)(partials, weights, POST, mats, freqs, props)
+            tr.witness_runs += 1
+            tr.regions += 1
+            tr.ops_checked += t.nchecked
+            dom = [d.lt(0, i) for i in V.values()]
+            from symtorch.explore import prove
+
+            for node in (3, 4):
+                P_ = partials[node]  # [2, K, S, N]
+                ids = P_._ids
+                for b in range(2):
+                    for n_ in range(N):
+                        block = ids[b, :, :, n_].reshape(-1).tolist()
+                        vals = [d.vals[x] for x in block]
+                        top = block[max(range(len(vals)), key=lambda q: vals[q])]
+                        goal = d.and_(d.eq(top, 1), *[d.le(x, 1) for x in block])
+                        gl = (f'node {node}, sample {b}, pattern {n_}: after the division the largest entry of the block is exactly 1 '
+                              f'and no entry exceeds 1')
+                        tr.obligation(f'{label}:{flip}:{gl}')
+                        st, model, _ = prove(d, dom + list(t.pcs), goal, timeout=30.0, tr=tr, label=label + ': ' + gl, parallel=True)
+                        if st == 'proved':
+                            continue
+                        if st == 'refuted' or abs(d.vals[top] - 1.0) > 1e-12:
+                            bad, detail = normalised_replay(kernel, S, K, N)
+                            if bad:
+                                tr.violation(f'{kernel}:scaler-not-per-sample',
+                                             f'{label}: {gl} fails (witness value of the largest entry {d.vals[top]}): the scaler is '
+                                             f'not the maximum of that sample\'s own block; on plain tensors: {detail}',
+                                             {'kernel': kernel, 'S': S, 'K': K, 'N': N, 'kind': 'normalised'})
+                            else:
+                                tr.inconc(f'{label}: {gl} fails in the encoding but the real kernel handles samples 600 orders of '
+                                          f'magnitude apart ({detail})')
+                            return
+                        tr.inconc(f'{label}: {gl} undecided')
+                        return
+
 def run_task(task, tr):
-    {'algebra': algebra_task, 'history': history_task, 'fp': fp_task, 'fpscalers': fpscalers_task, 'fpswitch': fpswitch_task}[task[0]](task, tr)
+    {'normalised': normalised_task, 'algebra': algebra_task, 'history': history_task, 'fp': fp_task, 'fpscalers': fpscalers_task, 'fpswitch': fpswitch_task}[task[0]](task, tr)
 
 
 # the thorough tier keeps ~35 tasks x 3 solver processes busy on 16 cores: wall-clock solver budgets are scaled so
@@ -1152,6 +1275,11 @@ def tasks_for(tier):
     # batched histories in which only ONE of the two samples underflows
     ts.append(('history', ((True, False), (False, False)), False, True))
     ts.append(('history', ((False, True), (True, True)), True, True))
+    # (e) one scaler per sample and pattern (structural fact behind the floating-point clause for batched evaluation)
+    ts.append(('normalised', 'calculate_treelikelihood_discrete_rescaled', 2, 1, 2))
+    ts.append(('normalised', 'calculate_treelikelihood_tip_states_discrete_rescaled', 2, 1, 2))
+    if tier == 'thorough':
+        ts.append(('normalised', 'calculate_treelikelihood_discrete_rescaled', 2, 2, 2))
     ts.append(('fp', False, 300))
     ts.append(('fpscalers', 'calculate_treelikelihood_discrete_rescaled'))
     ts.append(('fpscalers', 'calculate_treelikelihood_tip_states_discrete_rescaled'))
@@ -1178,7 +1306,9 @@ def body(chk):
                        'public API. (d): the real switch code with the model\'s own threshold on bounded trees whose leaves are partial '
                        'vectors of arbitrary sub-trees; Float64 lowered to a sound log2-magnitude relation (QF_LRA): no scaler / log '
                        'argument of the switching evaluation (or of later, rescaled evaluations) can underflow; path regions = which nodes '
-                       'are recomputed, coverage certified by a closure query')
+                       'are recomputed, coverage certified by a closure query. (e): the rescaled kernels on a batch of two samples - after the division the '
+                       'largest entry of every (sample, pattern) block of every internal partial is exactly 1 (one scaler per sample), decided '
+                       'on the witness regions; a failing kernel is replayed with samples 600 orders of magnitude apart')
     chk.total.assumptions |= {'(a),(b) over the reals: they show the rescaled formulas are algebraically the plain formula; the accuracy to '
                               '1e-8 for large trees is a floating-point statement addressed only by (c)',
                               'the rescaled path is used as extended-range reference in the API confirmation of (c)',
